@@ -37,7 +37,7 @@ ENGINE = "e4"
 SHRINK_LISTS = [("ops",), ("program", "ops")]
 REAL = ["pandapipes.create (every create_* function), pandapipes.toolbox (reindex/drop/fuse/select), pipeflow (real)"]
 STUB = []
-TIGHT = dict(tol_p=1e-10, tol_m=1e-10, tol_T=1e-8, tol_res=1e-8, iter=100)
+TIGHT = dict(tol_p=1e-10, tol_m=1e-10, tol_T=1e-8, tol_res=1e-5, iter=100)  # residual floor ~1e-7: accuracy comes from the step tolerances
 
 
 def generate(seed, tier, prop):
@@ -190,6 +190,8 @@ def _mk_call(rng, st, fn, fault):
         s = "s" if bulk else ""
         kw = {"from_junction" + s: jrefs() if bulk else jref(), "to_junction" + s: jrefs() if bulk else jref(),
               "std_type": rng.choice(PIPE_STD), "length_km": round(rng.uniform(0.05, 2.0), 3)}
+        if bulk and rng.random() < 0.4:
+            kw["std_type"] = [rng.choice(PIPE_STD) for _ in range(k)]
         if rng.random() < 0.4:
             kw["sections"] = rng.randint(1, 4)
         if rng.random() < 0.3:
@@ -692,7 +694,12 @@ def _tail_c16(trace, res):
         elif kind == "pipes":
             for it in items:
                 pp.create_pipe(a, it["fj"], it["tj"], tail["std_type"], it["x"], index=it["i"])
-            pp.create_pipes(b, [it["fj"] for it in items], [it["tj"] for it in items], tail["std_type"], [it["x"] for it in items], index=idx)
+            stypes = [PIPE_STD[(rng.randrange(len(PIPE_STD)))] for _ in items] if rng.random() < 0.5 else None
+            if stypes:
+                a = base()
+                for it, st_ in zip(items, stypes):
+                    pp.create_pipe(a, it["fj"], it["tj"], st_, it["x"], index=it["i"])
+            pp.create_pipes(b, [it["fj"] for it in items], [it["tj"] for it in items], stypes or tail["std_type"], [it["x"] for it in items], index=idx)
             t = ["pipe"]
         elif kind == "pipes_par":
             for it in items:
@@ -851,6 +858,13 @@ def _solve(net, meta):
         return "exc:" + type(e).__name__
 
 
+def _flowless_tags(net):
+    fl = netmodel.flowless_junctions(net)
+    if "junction" not in net or "vtag" not in net.junction:
+        return set()
+    return {net.junction.at[j, "vtag"] for j in fl if j in net.junction.index}
+
+
 def _results_by_tag(net):
     out = {}
     for t in netmodel.result_tables(net):
@@ -864,7 +878,7 @@ def _results_by_tag(net):
     return out
 
 
-def _cmp_results(a, b, only=None):
+def _cmp_results(a, b, only=None, skip_t=()):
     diffs = []
     # Averaged per-element results come from grouped sums implemented as cumsum differences over the
     # whole table: their absolute error scales with the largest magnitude in the column (a flowless
@@ -880,11 +894,13 @@ def _cmp_results(a, b, only=None):
         if only is not None and tag not in only:
             continue
         ra, rb = a[tag], b[tag]
-        zero = abs(ra.get("mdot_from_kg_per_s", 1.0) or 0.0) < 1e-7 or abs(rb.get("mdot_from_kg_per_s", 1.0) or 0.0) < 1e-7
+        zero = abs(ra.get("mdot_from_kg_per_s", 1.0) or 0.0) < netmodel.ZERO_FLOW_ABS or abs(rb.get("mdot_from_kg_per_s", 1.0) or 0.0) < netmodel.ZERO_FLOW_ABS
         for c in sorted(set(ra) & set(rb)):
             x, y = ra[c], rb[c]
             if c in netmodel.ZERO_FLOW_SENSITIVE and zero:
                 continue
+            if c == "t_k" and tag in skip_t:
+                continue   # junction inside a flowless loop: temperature decided by a round-off flow
             if isinstance(x, float) and isinstance(y, float):
                 if np.isnan(x) and np.isnan(y):
                     continue
@@ -958,13 +974,14 @@ def _exec_c17(trace, res):
                 a, b = rng.sample(J, 2)
                 expect_removed = {net.junction.at[b, "vtag"]}
                 jt = {net.junction.at[b, "vtag"]: net.junction.at[a, "vtag"]}
-                tb.fuse_junctions(net, a, [b])
+                tb.fuse_junctions(net, a, rng.choice([[b], [b], [a, b], b]))
                 # model: every reference to b now points to a
                 state = {tag: row for tag, row in state.items()}
                 state = _apply_fuse_to_state(state, jt)
             elif kind == "select_subnet":
                 sub_j = rng.sample(J, rng.randint(1, len(J)))
-                sub = tb.select_subnet(net, sub_j, include_results=rng.random() < 0.5)
+                sub_with_results = rng.random() < 0.5
+                sub = tb.select_subnet(net, sub_j, include_results=sub_with_results)
             elif kind == "calc":
                 pass
         except Exception as e:
@@ -987,6 +1004,19 @@ def _exec_c17(trace, res):
                 if state.get(tag) != now.get(tag):
                     res.violate("C17", "C17/source-net-changed:%s@select_subnet" % tag.split("#")[0], tag, oi)
                     break
+            if sub_with_results and base_res is not None:
+                # result rows handed over must be those of the same elements
+                sr = _results_by_tag(sub)
+                src = _results_by_tag(net)
+                for tag in sorted(sr):
+                    if tag in src and snap.canon_deep(sr[tag]) != snap.canon_deep(src[tag]):
+                        res.violate("C17", "C17/subnet-results-of-other-element:%s@select_subnet" % tag.split("#")[0], tag, oi)
+                        break
+                for t_ in netmodel.result_tables(sub):
+                    el = t_[4:]
+                    if el in sub and len(sub[t_]) and sorted(sub[t_].index) != sorted(sub[el].index.intersection(sub[t_].index)):
+                        res.violate("C17", "C17/subnet-results-without-element:%s@select_subnet" % el, "", oi)
+                res.count("probe:subnet-results-compared")
             ss = _identity_state(sub)
             for tag, row in ss.items():
                 if tag in state and state[tag] != row and "MISSING" not in row:
@@ -1015,7 +1045,7 @@ def _exec_c17(trace, res):
             if out != "ok":
                 res.violate("C17", "C17/relabelled-net-does-not-solve:%s@%s" % (out, kind), "", oi)
             else:
-                d = _cmp_results(base_res, _results_by_tag(net))
+                d = _cmp_results(base_res, _results_by_tag(net), skip_t=_flowless_tags(net))
                 if d:
                     res.violate("C17", "C17/results-changed-by-relabelling:%s@%s" % (d[0], kind), ",".join(d)[:300], oi)
                 res.count("probe:relabel-results-compared")
@@ -1091,7 +1121,7 @@ def _gen_c06(rng, seed, tier):
         variants.append({"order_seed": rng.randrange(1 << 30), "explicit_index": rng.random() < 0.5,
                          "relabel": rng.choice([None, "shift", "shuffle", "big", "sparse"]),
                          "permute_rows": rng.random() < 0.5, "drop_recreate": rng.random() < 0.3,
-                         "use_numba": rng.random() < 0.5})
+                         "use_numba": rng.random() < 0.5, "resolve_after_permutation": rng.random() < 0.35})
     return {"engine": ENGINE, "prop": "C06", "seed": seed, "tier": tier, "program": program, "meta": meta,
             "ops": variants}
 
@@ -1238,7 +1268,22 @@ def _exec_c06(trace, res):
             continue
         if ref_res is None:
             continue
-        d = _cmp_results(ref_res, _results_by_tag(net))
+        if var.get("resolve_after_permutation"):
+            # history on ONE net object: solved, rows permuted in place (same lengths), solved again
+            prng = random.Random(var["order_seed"] + 1)
+            for t in ("junction", "pipe", "sink", "valve", "heat_consumer", "ext_grid"):
+                if t in net and len(net[t]) > 1:
+                    perm = list(net[t].index)
+                    prng.shuffle(perm)
+                    net[t] = net[t].loc[perm]
+            try:
+                pp.pipeflow(net, mode=mode, use_numba=var["use_numba"], **TIGHT)
+            except Exception as e:
+                res.violate("C06", "C06/verdict-differs:ok-vs-%s@resolve-after-permutation" % type(e).__name__, label, vi)
+                continue
+            res.count("probe:resolved-after-inplace-permutation")
+            label += "R"
+        d = _cmp_results(ref_res, _results_by_tag(net), skip_t=_flowless_tags(net) | _flowless_tags(ref))
         missing = set(ref_res) ^ set(_results_by_tag(net))
         if missing:
             res.violate("C06", "C06/elements-missing-in-results", ",".join(sorted(missing))[:200], vi)
